@@ -36,6 +36,7 @@ SHALLOW = {
     'copy.copy': copy.copy,
     'copy_with': lambda c: fdl.copy_with(c),
     'cast': _cast,
+    'cast-same-type': lambda c: fdl.cast(type(c), c),
 }
 
 
@@ -73,7 +74,7 @@ def check_case(args):
       bad(f'{copier} returned the same object')
     want = canon.canon(orig)
     got = canon.canon(cp)
-    if copier != 'cast' and got != want:
+    if copier not in ('cast',) and got != want:
       bad(f'{copier}: the copy differs from the original')
     for k, v in orig.__arguments__.items():
       if k not in cp.__arguments__ or cp.__arguments__[k] is not v:
@@ -120,7 +121,7 @@ def run(tier='quick', seed=0, nproc=16):
       res, 'layerb.prop_C07',
       rule='every configuration of the pool (positional/keyword/**kwargs arguments, tags incl. '
            'positional ones, shared nodes and containers, all Buildable types) x copier (deepcopy, '
-           'pickle, deepcopy_with, copy.copy, copy_with, cast) x every edit sequence of length <= '
+           'pickle, deepcopy_with, copy.copy, copy_with, cast to the other and to the same type) x every edit sequence of length <= '
            f'{2 if tier == "quick" else 3} applied to the copy; canonical form + identity sets + build of '
            'the original before/after',
       exhaustive=True, bound='pool of %d configurations, edit sequences <= %d' % (len(names), 2 if tier == 'quick' else 3))
